@@ -5,7 +5,7 @@
     * the constructor with the id-range test of fixes/C20-4 is safe for every trie, whatever its history (`ofTrieChecked_safe`), and
       still accepts the documented use (`ofTrieChecked_accepts_copy`); `ofTrie_as_extracted` = the statement for the source as it is now;
     * the library's own `match` helpers (Core.cpp) compute the specification's compatibility (`matchPF_spec`, `matchF_spec`,
-      `compatB_symm`).
+      `compatB_symm`); `merge(pf, pf)` is the join of its operands (`mergePFs_lookup`, `mergePFs_asc`).
   Core Lean only.
 -/
 import AITB.Props.C20i
@@ -262,5 +262,82 @@ theorem ofTrie_as_extracted {m0 : FM} {es : Spec} (h : RI m0.trie es) (hF : m0.t
     subst hacc
     intro fb q hq hne
     exact filterChecked_defined hinv' fb q hq hne
+
+/-! ### `merge` -/
+
+
+theorem lookup_cons_ne (k v : Nat) (r : PF) {i : Nat} (h : k ≠ i) : lookup ((k, v) :: r) i = lookup r i := by
+  simp only [lookup, if_neg h]
+theorem lookup_cons_eq (k v : Nat) (r : PF) : lookup ((k, v) :: r) k = some v := by
+  simp only [lookup, if_true]
+
+/-- the merged key names exactly the factors named by either operand; on a shared factor the right operand's value is taken -/
+theorem mergePF_lookup (fuel : Nat) (i : Nat) (l r : PF) (lo : Nat) (hl : KeysAsc lo l) (hr : KeysAsc lo r)
+    (hf : l.length + r.length ≤ fuel) :
+    lookup (mergePF fuel l r) i = (match lookup r i with | some v => some v | none => lookup l i) ∧
+    KeysAsc lo (mergePF fuel l r) := by
+  induction fuel generalizing l r lo with
+  | zero =>
+    have hl0 : l = [] := List.eq_nil_of_length_eq_zero (by omega)
+    have hr0 : r = [] := List.eq_nil_of_length_eq_zero (by omega)
+    subst hl0; subst hr0; simp [mergePF, lookup, KeysAsc]
+  | succ f ih =>
+    cases l with
+    | nil =>
+      cases r with
+      | nil => simp [mergePF, lookup, KeysAsc]
+      | cons y r' =>
+        simp only [mergePF]
+        exact ⟨by cases lookup (y :: r') i <;> simp [lookup], hr⟩
+    | cons x l' =>
+      obtain ⟨lk, lv⟩ := x
+      cases r with
+      | nil =>
+        simp only [mergePF]
+        exact ⟨by simp [lookup], hl⟩
+      | cons y r' =>
+        obtain ⟨rk, rv⟩ := y
+        simp only [List.length_cons] at hf
+        rw [mergePF]
+        by_cases h1 : lk < rk
+        · rw [if_pos h1]
+          have hr' : KeysAsc (lk + 1) ((rk, rv) :: r') := ⟨by omega, hr.2⟩
+          obtain ⟨ihl, iha⟩ := ih l' ((rk, rv) :: r') (lk + 1) hl.2 hr' (by simp only [List.length_cons]; omega)
+          refine ⟨?_, ⟨hl.1, iha⟩⟩
+          by_cases hi : lk = i
+          · subst hi
+            have hn : lookup ((rk, rv) :: r') lk = none :=
+              lookup_none_of_lt (lo := rk) (pf := (rk, rv) :: r') ⟨Nat.le_refl _, hr.2⟩ h1
+            rw [hn, lookup_cons_eq, lookup_cons_eq]
+          · rw [lookup_cons_ne _ _ _ hi, lookup_cons_ne _ _ _ hi, ihl]
+        · rw [if_neg h1]
+          by_cases he : lk = rk
+          · subst he
+            rw [if_pos rfl]
+            obtain ⟨ihl, iha⟩ := ih l' r' (lk + 1) hl.2 hr.2 (by omega)
+            refine ⟨?_, ⟨hr.1, iha⟩⟩
+            by_cases hi : lk = i
+            · subst hi; rw [lookup_cons_eq, lookup_cons_eq]
+            · rw [lookup_cons_ne _ _ _ hi, lookup_cons_ne _ _ _ hi, lookup_cons_ne _ _ _ hi, ihl]
+          · rw [if_neg he]
+            have hgt : rk < lk := by omega
+            have hl' : KeysAsc (rk + 1) ((lk, lv) :: l') := ⟨by omega, hl.2⟩
+            obtain ⟨ihl, iha⟩ := ih ((lk, lv) :: l') r' (rk + 1) hl' hr.2 (by simp only [List.length_cons]; omega)
+            refine ⟨?_, ⟨hr.1, iha⟩⟩
+            by_cases hi : rk = i
+            · subst hi; rw [lookup_cons_eq, lookup_cons_eq]
+            · rw [lookup_cons_ne _ _ _ hi, lookup_cons_ne _ _ _ hi, ihl]
+
+/-- **`merge` of two keys is their join** (right operand wins on a shared factor; for compatible keys there is nothing to win):
+    the assignment `reconstruct` returns — the query overwritten by the returned entries — is what the library's `merge` of them denotes -/
+theorem mergePFs_lookup (l r : PF) (lo : Nat) (hl : KeysAsc lo l) (hr : KeysAsc lo r) (i : Nat) :
+    lookup (mergePFs l r) i = (match lookup r i with | some v => some v | none => lookup l i) :=
+  (mergePF_lookup _ i l r lo hl hr (Nat.le_refl _)).1
+
+theorem mergePFs_asc (l r : PF) (lo : Nat) (hl : KeysAsc lo l) (hr : KeysAsc lo r) : KeysAsc lo (mergePFs l r) :=
+  (mergePF_lookup _ 0 l r lo hl hr (Nat.le_refl _)).2
+
+example : mergePFs [(0, 1), (2, 0)] [(1, 1), (2, 0), (4, 3)] = [(0, 1), (1, 1), (2, 0), (4, 3)] := by decide
+
 
 end AITB.Trie
